@@ -204,15 +204,19 @@ class LocalFileStore(Store):
             STU.from_type(type(blob)), codec
         )
         p = os.path.join(self._root, "blobs", key)
+        # The blob and its metadata are written under temporary names and renamed once complete, the blob last:
+        # a blob that is visible is complete and has its metadata, even if the process is killed half-way.
+        tmp_p = os.path.join(self._root, "blobs", key + ".tmp")
         if isinstance(protocol, CodecProtocol):
-            protocol.serialize_into(blob, GenericLocation(p))
+            protocol.serialize_into(blob, GenericLocation(tmp_p))
         elif isinstance(protocol, FileCodecProtocol):
-            # This is the local file system, we can directly copy the file to its final destination
-            protocol.serialize_into(blob, PurePath(p))
+            # This is the local file system, we can directly write the file next to its final destination
+            protocol.serialize_into(blob, PurePath(tmp_p))
         else:
             raise DDSException(f"Wrong protocol type: {type(protocol)} {protocol}")
         meta_p = os.path.join(self._root, "blobs", key + ".meta")
-        with open(meta_p, "wb") as f:
+        tmp_meta_p = os.path.join(self._root, "blobs", key + ".meta.tmp")
+        with open(tmp_meta_p, "wb") as f:
             f.write(
                 json.dumps(
                     {
@@ -221,6 +225,8 @@ class LocalFileStore(Store):
                     }
                 ).encode("utf-8")
             )
+        os.replace(tmp_meta_p, meta_p)
+        os.replace(tmp_p, p)
         _logger.debug(f"Committed new blob in {key}")
 
     def has_blob(self, key: PyHash) -> bool:
